@@ -28,8 +28,9 @@ Section Main.
   Variable getter_c : Z -> Z.
   Variable fac_value mdef_value : Z.
   Variable adapt_value : nat -> Z -> Z.
-  Notation stp := (step vld getter_c fac_value mdef_value adapt_value).
-  Notation frd := (fired vld getter_c fac_value mdef_value adapt_value).
+  Variable ydef_value : Z.
+  Notation stp := (step vld getter_c fac_value mdef_value adapt_value ydef_value).
+  Notation frd := (fired vld getter_c fac_value mdef_value adapt_value ydef_value).
 
   (* ---- the deciding primitives under a call fault ------------------------------- *)
   Lemma call_vld_cases k e n v :
@@ -135,6 +136,21 @@ Section Main.
     - destruct (c s0); [right; split; reflexivity|].
       destruct (call_plain_cases k e 0) as [[H1 H2]|[H1 H2]]; rewrite H1, H2; [left | right]; split; reflexivity.
     - destruct (call_chain_cases k e chain 0) as [[H1 H2]|[H1 H2]]; rewrite H1, H2, ?call_chain_nofault; [left | right]; split; reflexivity.
+    - (* SIxor *) destruct (vld_items_cases k e (diff vs (inter (s s0) vs)) 0) as [[H1 H2]|[H1 H2]]; rewrite H1, H2; [left | right]; split; reflexivity.
+    - (* SSymDiff *) destruct (vld_items_cases k e (diff vs (inter (s s0) vs)) 0) as [[H1 H2]|[H1 H2]]; rewrite H1, H2; [left | right]; split; reflexivity.
+    - (* SetY *)
+      destruct (call_vld_cases k e 0 v) as [[H1 H2]|[H1 H2]]; rewrite H1, H2; [left; split; reflexivity|].
+      destruct (call_vld vld NoFault 0 v) as [v'|e0]; [|right; split; reflexivity].
+      destruct (y s0); [right; split; reflexivity|].
+      destruct (call_plain_cases k e 1) as [[H3 H4]|[H3 H4]]; rewrite H3, H4; [left; split; reflexivity|].
+      destruct (call_vld_cases k e 2 ydef_value) as [[H5 H6]|[H5 H6]]; rewrite H5, H6; [left | right]; split; reflexivity.
+    - (* ReadY *)
+      destruct (y s0); [right; split; reflexivity|].
+      destruct (call_plain_cases k e 0) as [[H1 H2]|[H1 H2]]; rewrite H1, H2; [left; split; reflexivity|].
+      destruct (call_vld_cases k e 1 ydef_value) as [[H5 H6]|[H5 H6]]; rewrite H5, H6; [left | right]; split; reflexivity.
+    - (* SetAd2 *)
+      destruct chain as [n|]; [|right; split; reflexivity].
+      destruct (call_chain_cases k e n 0) as [[H1 H2]|[H1 H2]]; rewrite H1, H2, ?call_chain_nofault; [left | right]; split; reflexivity.
   Qed.
 
   (* whatever the plan, an operation that raises has touched nothing and notified nobody *)
@@ -201,6 +217,20 @@ Section Main.
     - apply Hd.
     - destruct (c s0); apply Hd.
     - rewrite call_chain_nofault. apply Hd.
+    - destruct (vld_items vld NoFault 0 (diff vs (inter (s s0) vs))) as [ys|e0] eqn:E;
+        [apply Hd | intros H; apply Hr in H; subst e0; eapply vld_items_nofault; exact E].
+    - destruct (vld_items vld NoFault 0 (diff vs (inter (s s0) vs))) as [ys|e0] eqn:E;
+        [apply Hd | intros H; apply Hr in H; subst e0; eapply vld_items_nofault; exact E].
+    - destruct (call_vld vld NoFault 0 v) as [v'|e0] eqn:E;
+        [| intros H; apply Hr in H; subst e0; eapply call_vld_nofault; exact E].
+      destruct (y s0) as [old|]; [destruct (Z.eqb v' old); apply Hd|].
+      cbn [call_plain call_fault].
+      destruct (call_vld vld NoFault 2 ydef_value) as [dv|e1] eqn:E1;
+        [destruct (Z.eqb v' dv); apply Hd | intros H; apply Hr in H; subst e1; eapply call_vld_nofault; exact E1].
+    - destruct (y s0); [apply Hd|]. cbn [call_plain call_fault].
+      destruct (call_vld vld NoFault 1 ydef_value) as [dv|e1] eqn:E1;
+        [apply Hd | intros H; apply Hr in H; subst e1; eapply call_vld_nofault; exact E1].
+    - destruct chain as [n|]; [rewrite call_chain_nofault|]; apply Hd.
   Qed.
 
   (* ---- one operation under a handler fault ------------------------------------------ *)
@@ -236,12 +266,14 @@ Section Main.
                 drop_handler j (snd (list_commit NoFault s0 new a b)))).
     { intros new a b. unfold list_commit. destruct (_ && _); [reflexivity|].
       unfold done. cbn [fst snd]. rewrite run_handlers_handler. reflexivity. }
-    destruct o; cbn [step]; rewrite ?vld_items_handler, ?vld_pairs_handler, ?call_chain_handler, ?call_chain_nofault;
+    destruct o; cbn [step];
+      try match goal with c0 : option nat |- _ => destruct c0 end;
+      rewrite ?vld_items_handler, ?vld_pairs_handler, ?call_chain_handler, ?call_chain_nofault;
       unfold call_vld, call_plain; cbn [call_fault];
       repeat match goal with
              | |- context [match ?X with _ => _ end] => destruct X
-             end; try reflexivity; try apply Hl.
-    unfold done. cbn [fst snd]. rewrite run_handlers_handler. reflexivity.
+             end; try reflexivity; try apply Hl;
+      unfold done; cbn [fst snd]; rewrite run_handlers_handler; reflexivity.
   Qed.
 
   (* ---- the law on the paired run ------------------------------------------------------ *)
@@ -272,7 +304,7 @@ Section Main.
     cbn. rewrite st_eqb_refl. reflexivity.
   Qed.
 
-  Notation run2' := (run2 vld getter_c fac_value mdef_value adapt_value).
+  Notation run2' := (run2 vld getter_c fac_value mdef_value adapt_value ydef_value).
 
   Theorem run2_law : forall h s0 i, law_hist i s0 (run2' s0 s0 h) = [].
   Proof.
